@@ -50,7 +50,7 @@ ASSUMPTIONS = ['IEEE rounding is not modelled: convolved fluxes within 1e-9 rela
                'not modelled; grids in a package are either identical or differ by far more']
 TRUSTED_EXTRA = ['SED objects, Filter objects and the parameter table are built with sedfitter / astropy constructors; the model '
                  'receives the float arrays those objects hold']
-N = {'quick': 160, 'thorough': 3000}
+N = {'quick': 400, 'thorough': 8000}
 LETTERS = 'abcdefghijklmnopqrstuvwxyz0123456789'
 PAR_NAMES = ['MASS', 'TEMP', 'LUMIN', 'INCL']
 FORMS = ['A', 'N', 'C', 'D', 'E', 'F']
@@ -158,6 +158,8 @@ def gen_case(rng, directed=None):
         tries += 1
         kind = kinds[len(filters)] if tries < 200 else 'inside'
         half = rng.uniform(1.1, 1.8)
+        if kind != 'inside':
+            half = max(half, 1.3)       # the filter must reach into the SED range (positive convolved flux)
         if kind == 'low_edge':
             cen = float('%.3g' % (lo_w * rng.uniform(0.9, 1.25)))
         elif kind == 'high_edge':
@@ -529,7 +531,13 @@ def run_case(case):
             import traceback
             return CaseResult(False, violates=True, key=key,
                               detail='the pipeline raised on an in-domain input: %r\n%s' % (e, traceback.format_exc()[-1500:]))
-        conv, blocks = ask_model(case, real)
+        try:
+            conv, blocks = ask_model(case, real)
+        except common.DriverError as e:
+            if 'outOfDomain' in str(e):
+                # a convolved model flux is not positive: outside the quantifier (the generator avoids it; counted, never judged)
+                return CaseResult(True, key=key, nontrivial=False, branches=['skipped_nonpositive_flux'])
+            raise
         names = case['names']
         branches = set()
         relaxed = 0
